@@ -360,6 +360,37 @@ func runC15(c *Ctx) {
 		nValid += ruleReflectValidity(c, "R15.3", f)
 		// "never panic": every index / slice expression of a codec (and of the helpers it is moved into) is in range
 		codecFns = append(codecFns, f)
+		// … and no variable of its constructor is WRITTEN by a call: whatever the codec's function (or a literal inside it)
+		// assigns is its own local — a captured variable assigned per call is shared by all calls of that codec value
+		for _, g2 := range append([]*ssa.Function{f}, anonFuncsDeep(f)...) {
+			for _, in := range ownInstrs(g2) {
+				st, isSt := in.(*ssa.Store)
+				if !isSt {
+					continue
+				}
+				fv, isFV := st.Addr.(*ssa.FreeVar)
+				if !isFV {
+					continue
+				}
+				// (a literal inside the codec writing the codec's OWN local is fine: the variable must belong to the constructor)
+				owner := g2
+				var bind ssa.Value = fv
+				for owner != nil && owner != f {
+					b := freeVarBinding(bind.(*ssa.FreeVar))
+					if b == nil {
+						break
+					}
+					bind = b
+					owner = owner.Parent()
+					if _, still := bind.(*ssa.FreeVar); !still {
+						break
+					}
+				}
+				if fv2, still := bind.(*ssa.FreeVar); still && fv2.Parent() == f {
+					c.obD("R15.5", st, "codec-writes-no-variable-of-its-constructor", false, "a call of a codec assigns only its own locals: nothing one call stores is seen by another call", "the codec assigns the captured variable '"+fv2.Name()+"' of "+fnName(outer)+": concurrent or successive calls read each other's value")
+				}
+			}
+		}
 		// a codec holds no scratch memory across calls: the function literal captures no byte buffer made by its
 		// constructor (one producer/consumer value serves concurrent requests; a shared copy buffer interleaves them)
 		for _, in := range instrs(outer) {
